@@ -11,6 +11,7 @@ CONSTANTS
   TrOnly = FALSE
   AxisBy = "dims"
   Memo = FALSE
+  WriteVia = "data"
   ClampBy = "dim"
   RangeBy = "coords"
   LookupBy = "search"
